@@ -789,3 +789,46 @@ package mocker
 //@   ensures too_few_return_values_rejected_up_front: old(m.baseMocker.when) == nil ==> len(value) >= rt_numout(rt_of(typeof(m.funcDef)))
 //@   panics_only_if rejected: true
 //@   ensures_on_panic rejected_configuration_leaves_the_variable_alone: proxy.var_of(m.iFace).Tab == old(proxy.var_of(m.iFace).Tab) && proxy.var_of(m.iFace).Data == old(proxy.var_of(m.iFace).Data)
+
+// ---- C12: the small setters of the builders change exactly what they say ----------------------------------------------
+// (a setter that also dropped or rewrote the stub configuration would silently discard earlier instructions)
+//@ func (m *DefaultInterfaceMocker) As
+//@   props C12
+//@   requires receiver: m != nil
+//@   assigns m.funcDef
+//@   ensures signature_recorded: m.funcDef == aFunc
+//@   panics_only_if method_not_chosen: m.method == ""
+//@ func (m *DefMocker) Origin
+//@   props C12 C03
+//@   requires receiver: m != nil && m.baseMocker != nil
+//@   assigns m.baseMocker.origin
+//@   ensures placeholder_recorded: m.baseMocker.origin == originFunc
+//@ func (m *MethodMocker) Origin
+//@   props C12 C03
+//@   requires receiver: m != nil && m.baseMocker != nil
+//@   assigns m.baseMocker.origin
+//@   ensures placeholder_recorded: m.baseMocker.origin == originFunc
+//@ func (m *UnexportedMethodMocker) Origin
+//@   props C12 C03
+//@   requires receiver: m != nil && m.baseMocker != nil
+//@   assigns m.baseMocker.origin
+//@   ensures placeholder_recorded: m.baseMocker.origin == originFunc
+//@ func (m *UnexportedFuncMocker) Origin
+//@   props C12 C03
+//@   requires receiver: m != nil && m.baseMocker != nil
+//@   assigns m.baseMocker.origin
+//@   ensures placeholder_recorded: m.baseMocker.origin == originFunc
+//@ func (m *MethodMocker) Method
+//@   props C12 C13
+//@   safety nonil
+//@   requires receiver: m != nil && m.structDef != nil
+//@   assigns m.method, m.methodIns
+//@   ensures method_recorded: m.method == name
+//@   panics_only_if unknown_or_empty_method: name == "" || !rt_has_method(rt_of(typeof(m.structDef)), name)
+//@ func (m *DefaultInterfaceMocker) Method
+//@   props C12 C13
+//@   safety nonil
+//@   requires receiver: m != nil && m.iFace != nil && rt_kind(rt_of(typeof(m.iFace))) == reflect.Ptr
+//@   assigns m.method
+//@   ensures method_recorded: m.method == name
+//@   panics_only_if unknown_or_empty_method: name == "" || !rt_has_method(rt_elem(rt_of(typeof(m.iFace))), name)
